@@ -30,6 +30,7 @@ META["technique"] += "; symbolic evaluation of the printers' source over enumera
 META["level_text"] += ' Also decided (R8-R13): no constructor field the renderer reads is missing from __str__ and no behaviour is keyed on token kinds; for every operator tree up to depth 3 the printed condition re-parses to the same tree; string text is written only with escapes the decoder maps back (no Python repr, `${` escaped); float/int literals print in a form the lexer reads back as the same kind and value; names accepted as quoted strings are printed through a quoting helper. Token-level printing of `{% liquid %}` line statements beyond path tokens is not decided.'
 META["technique"] += "; symbolic evaluation of the path printers over 21 root/segment shapes read back with a model of the path grammar; declared-type lint for truthiness tests of optional scalars in printers"
 META["technique"] += '; sibling comparator UnlessTag/UnlessNode vs IfTag/IfNode for parse, constructor and printer'
+META["technique"] += '; sibling comparator decrement / increment'
 META["level_text"] += " Also decided (R15, R16): Path.__str__/PathToken.__str__ print every root/segment shape as text that reads back as the same segments; no printer drops a legal empty/zero value of an optional str/int attribute."
 
 TAGWORD = re.compile(r"\{%\x00?\s*([a-z_#]+)")
@@ -749,6 +750,10 @@ def run(prog: Program, res: Result) -> None:  # noqa: PLR0912, PLR0915
     from checks.shared import check_unless_mirrors_if
 
     check_unless_mirrors_if(prog, res, "C12.R19", only=("parse", "__init__", "__str__"))
+    res.rule("C12.R20", "`decrement` is parsed and printed as `increment` is: DecrementTag.parse / DecrementNode.__init__ / __str__ equal their increment counterparts up to the tag's name (= C20.R10)")
+    from checks.shared import check_sibling_tags
+
+    check_sibling_tags(prog, res, "C12.R20", "liquid2/builtin/tags/decrement_tag.py", "liquid2/builtin/tags/increment_tag.py", (("DecrementNode", "IncrementNode"), ("DecrementTag", "IncrementTag")), (("Decrement", "Increment"), ("decrement", "increment")), only=("parse", "__init__", "__str__"))
 
 
 def _grouping_rule(prog: Program, res: Result) -> None:  # noqa: PLR0912, PLR0915
@@ -1254,7 +1259,7 @@ def _identifier_printing_rule(prog: Program, res: Result) -> None:  # noqa: PLR0
                         res.fail("C12.R13", file=sm.file, line=bare[0].lineno, qualname=f"{target_cls.name}.__str__", construct=f"{target_cls.name}.__str__ prints self.{attr} bare", message=f"{f.qualname} accepts a quoted string for `{attr}` (parse_string_or_identifier) but {target_cls.name}.__str__ interpolates self.{attr} as it is: a name with a space, quote or other non-word character is printed unquoted and the text no longer parses to the same tag", what=what)
                     else:
                         res.ok("C12.R13", site, what, "every use is an argument of a helper call or a presence test")
-    res.floor("C12.R13", "fields holding string-or-identifier names", n_fields, 8)
+    res.floor("C12.R13", "fields holding string-or-identifier names", n_fields, 6)
 
 
 def _literal_shapes_rule(prog: Program, res: Result) -> None:
